@@ -392,8 +392,16 @@ create_icf_block_hdr(struct isal_zstream *stream, uint8_t *start_in)
         if (end_out - stream->next_out >= ISAL_DEF_MAX_HDR_SIZE) {
                 /* Assumes ISAL_DEF_MAX_HDR_SIZE is large enough to contain a
                  * max length header and a gzip header */
-                if (stream->gzip_flag == IGZIP_GZIP || stream->gzip_flag == IGZIP_ZLIB)
+                if (stream->gzip_flag == IGZIP_GZIP || stream->gzip_flag == IGZIP_ZLIB) {
+                        /* The stateless header writer records the header as written by
+                         * switching gzip_flag to the _NO_HDR form. Here has_wrap_hdr
+                         * does that, and gzip_flag is a setting of the caller that has
+                         * to survive for the next stream after isal_deflate_reset() */
+                        uint16_t gzip_flag = stream->gzip_flag;
+
                         write_stream_header_stateless(stream);
+                        stream->gzip_flag = gzip_flag;
+                }
                 set_buf(write_buf, stream->next_out, stream->avail_out);
                 buffer_header = 0;
 
